@@ -7,6 +7,7 @@ unload/commit rule and exception unwinding of vm.go, the per-transaction layer o
 import NeoModel.Model.Exec
 import NeoModel.Proofs.ExecSim
 import NeoModel.Proofs.ExecSpec
+import NeoModel.Proofs.ExecFacts
 namespace NeoModel.Exec
 
 deriving instance DecidableEq for Outcome
@@ -190,5 +191,47 @@ example :
     ⟨.set (0, 1) 2 :: demoPre, [(0, 1), (0, 3)], false⟩
     ⟨[.set (0, 2) 2, .set (0, 1) 2] ++ demoPre, [(0, 1), (0, 3)], false⟩
     rfl rfl rfl rfl
+
+/-! ### 4. The facts the model contains literally, re-read from the source on every run -/
+
+open NeoModel.Generated in
+/-- the flag conditions of the model (`f.r && f.w` for a storage write, ... , `Flags.mut` for the
+    layer decision) are the RequiredFlags of the system calls / native methods and the mask of
+    contract/call.go as they are in the source now. -/
+theorem facts_required_flags (f : Flags) :
+    (f.r && f.w) = f.has (need "SystemStorageGetContext" ||| need "SystemStoragePut") ∧
+    (f.r && f.w) = f.has (need "SystemStorageGetContext" ||| need "SystemStorageDelete") ∧
+    f.n = f.has (need "SystemRuntimeNotify") ∧
+    f.r = f.has (need "SystemStorageGetContext" ||| need "SystemStorageGet") ∧
+    (f.r && f.c) = f.has (need "SystemContractCall") ∧
+    (f.r && f.w && f.c && f.n) = f.has (need "GasToken.transfer") ∧
+    (f.r && f.w) = f.has (need "PolicyContract.setFeePerByte") ∧
+    (f.r && f.w && f.n) = f.has (need "PolicyContract.blockAccount") ∧
+    (f.r && f.w) = f.has (need "PolicyContract.unblockAccount") ∧
+    (f.r && f.w && f.c && f.n) = f.has (need "ContractManagement.deploy") ∧
+    f.mut = decide (f.toNat &&& ExecFacts.wrapMask ≠ 0) := by
+  obtain ⟨r, w, c, n⟩ := f
+  cases r <;> cases w <;> cases c <;> cases n <;> decide
+
+
+open NeoModel.Generated in
+/-- the expressions the implementation model mirrors: the wrap condition of callExFromNative, the
+    commit flag of unloadContext, the states ContractHasTryBlock counts, the frames handleException
+    skips / catches with, the condition under which blockchain.go persists a transaction's layer. -/
+theorem facts_mechanism :
+    ExecFacts.wrapExpr = "ic.VM.ContractHasTryBlock() && f&(callflag.All^callflag.ReadOnly) != 0" ∧
+    ExecFacts.commitExpr = "v.uncaughtException == nil" ∧
+    ExecFacts.hasTryConds = ["eCtx.State == eTry || (eCtx.State == eCatch && eCtx.HasFinally())"] ∧
+    ExecFacts.handlerConds = ["ectx.State == eFinally || (ectx.State == eCatch && !ectx.HasFinally())",
+      "ectx.State == eTry && ectx.HasCatch()"] ∧
+    ExecFacts.persistConds = ["!v.HasFailed()"] := by decide
+
+
+open NeoModel.Generated in
+/-- DESIGN C04.4 (syntactic half): no statement of pkg/core/native writes through a cache object
+    obtained with GetROCache (the scan found accessor sites, so it is not vacuous). -/
+theorem native_ro_cache_never_written :
+    ExecFacts.roCacheWrites = [] ∧ 0 < ExecFacts.roCacheSites ∧ 0 < ExecFacts.rwCacheSites := by decide
+
 
 end NeoModel.Exec
